@@ -662,8 +662,21 @@ impl IQLEngine {
             }
             sip_rewriter.set_recursive_relations(recursive_rels);
 
-            let rewritten = sip_rewriter.rewrite_program(program);
+            let mut rewritten = sip_rewriter.rewrite_program(program);
             let stats = sip_rewriter.get_stats();
+
+            // The answer is the relation of the last rule head in first-appearance order. When
+            // the query relation has several clauses, the helper rules SIP generates for a later
+            // clause would follow an earlier clause of it and become "the last head"; keep every
+            // clause of the query relation at the end (their relative order is unchanged).
+            if let Some(query_head) = program.rules.last().map(|r| r.head.relation.clone()) {
+                let (mut rules, query_rules): (Vec<_>, Vec<_>) = rewritten
+                    .rules
+                    .drain(..)
+                    .partition(|r| r.head.relation != query_head);
+                rules.extend(query_rules);
+                rewritten.rules = rules;
+            }
 
             if std::env::var("IL_DEBUG").is_ok() {
                 if stats.rules_rewritten > 0 {
